@@ -1,6 +1,7 @@
 (* C09 - Securities are independent.  Statements only. *)
 From Coq Require Import QArith Qcanon ZArith List Bool String.
-Require Import CGT.Model.Num CGT.Model.Ledger CGT.Model.Match CGT.Model.Agg CGT.Proofs.AggFacts.
+Require Import CGT.Model.Num CGT.Model.Ledger CGT.Model.Match CGT.Model.Agg CGT.Model.Report
+               CGT.Proofs.AggFacts CGT.Proofs.LedgerFacts.
 Import ListNotations.
 
 (* The days of security s computed from the whole ledger are those computed from s's lines alone,
@@ -10,5 +11,16 @@ Proof. exact days_of_tick_proj. Qed.
 Theorem C09_other_lines_inert : forall l l' s, (forall t, In t l' -> of_tick s t = false) ->
   days_of_tick (l ++ l') s = days_of_tick l s.
 Proof. exact days_of_tick_other. Qed.
+
+(* Hence the evaluation of s (its error, or its disposals, legs, costs and closing pool) in the whole ledger
+   equals its evaluation alone, and is unaffected by any lines of other securities. *)
+Theorem C09_projection : forall P l s, eval_tick P (filter (of_tick s) l) s = eval_tick P l s.
+Proof. exact eval_tick_proj. Qed.
+Theorem C09_other_securities_inert : forall P l l' s, (forall t, In t l' -> of_tick s t = false) ->
+  eval_tick P (l ++ l') s = eval_tick P l s.
+Proof. exact eval_tick_other. Qed.
+
 Print Assumptions C09_projection_days.
 Print Assumptions C09_other_lines_inert.
+Print Assumptions C09_projection.
+Print Assumptions C09_other_securities_inert.
